@@ -106,8 +106,8 @@ CHECKS = {
         ref="DESIGN.md 5 C19"),
     "C11": dict(
         technique="puzzle rules written in TLA+ over GraphDefs (PuzzleRules.tla); TLC enumerates problems on small boards and computes solvability and the facts common to all rule-obeying grids (MC_Puzzle); replay into solve_<puzzle> with z3",
-        text="For each covered puzzle TLC evaluates the published rules on every candidate answer of small, non-square-first boards (every problem over the clue alphabet in the thorough tier, a seeded sample in the quick tier) and exports whether a solution exists and, per answer key, the value all solutions agree on; solve_<puzzle> must return exactly that is_sat and exactly those decided cells. Covered so far: slitherlink, masyu, yajilin, simpleloop, nurikabe, norinori, akari, star_battle, yinyang, creek, heyawake, lits, nurimisaki, putteria, aquarium, gokigen (the evidence file lists what a run covered).",
-        note="rules as published, in the module's own problem format; boards up to 3x3/3x4; z3 with the auxiliary-variable encodings is the solving path; puzzles of the anchor list that are not yet specified are named in DESIGN.md",
+        text="For each covered puzzle TLC evaluates the published rules on every candidate answer of small, non-square-first boards (every problem over the clue alphabet in the thorough tier, a seeded sample in the quick tier) and exports whether a solution exists and, per answer key, the value all solutions agree on; solve_<puzzle> must return exactly that is_sat and exactly those decided cells. All 26 anchored puzzle modules are covered (sudoku, slitherlink, masyu, yajilin, nurikabe, heyawake, akari, norinori, lits, star_battle, fillomino, nurimisaki, yinyang, creek, gokigen, aquarium, building, doppelblock, putteria, simpleloop, geradeweg, compass, fivecells, view, castle_wall, shakashaka); the evidence file lists the boards and problem counts of a run.",
+        note="rules as published, in the module's own problem format; boards up to 3x3/3x4; z3 with the auxiliary-variable encodings is the solving path; boards are small (up to 3x3 / 3x4 / 2x5); loop puzzles enumerate every simple cycle of the board, colouring puzzles every subset of cells",
         ref="DESIGN.md 5 C11, 12"),
 }
 
